@@ -23,6 +23,14 @@ CHECKS = {
    "One writer and 4-31 readers cycling through every URL kind with seeded delays at the hook points, then Close while readers are active; race reports of the monitor's own process are parsed and de-duplicated; every 200 playlist is validated as a consistent snapshot; per-reader playlist sequences checked for monotone evolution; bodies of the same URI compared across readers."),
  "C20": ("qmon", "exploration", "systematic schedule enumeration of the real queue at its hooked preemption points + porcupine linearizability check of every recorded history + race detector stress",
    "Producer scripts over {push, waitUntilSizeIsBelow(0|1)} x consumer pull scripts x cancellation are executed on the real clientSegmentQueue; at the two unlock->wait windows and at operation boundaries every choice of which actor advances is enumerated depth-first (exhaustive for the stated bounds); each history is checked against a FIFO model with porcupine and the quiescent wake-up oracle (blocked although the condition holds); then free-running stress under the race detector."),
+ "C10": ("climon", "exploration", "runtime monitoring: the real Client run against an in-process origin (scripted playlists + synthesized media), request log and callback log checked by a reference-model oracle",
+   "Well-formed MPEG-TS / fMP4 streams are synthesized with mediacommon writers and a hand-written playlist printer (timestamp bases incl. 2^40 and the 33-bit wrap, PTS offsets, several fragments per segment, renditions with different timescales, byte ranges, date-times); every unit delivered through OnData* is matched (unique payload tags) against the synthesized one: order, bytes, normalized PTS/DTS +-1 tick, drop rule at the origin, AbsoluteTime."),
+ "C11": ("climon", "exploration", "runtime monitoring: the real Client run against an in-process origin (scripted playlists + synthesized media), request log and callback log checked by a reference-model oracle",
+   "Scripted playlist histories (window size, advance per poll, ENDLIST, VOD/EVENT/untyped, six URI forms, byte ranges with and without offset, independent renditions, Low-Latency hints with / without CAN-SKIP-UNTIL); the origin's request log is compared with a reference model of the specified selection rule: start segment, consecutive media sequence numbers once each, URL resolution, Range header, playlist reload between segments, error instead of jumping, ErrClientEOS."),
+ "C12": ("climon", "fault_enumeration", "fault and Close-point enumeration over baseline client scripts under the race detector, with a goroutine census (runtime.Stack) and callback-log oracle",
+   "For four baseline scripts every (fault kind x request index) and every Close point (before the first response, during each request, inside OnTracks, inside / after each OnData, after the end) x (once, three times, concurrently) is executed; Wait() must yield exactly one non-nil error, the injected one where the property says so, no callback may follow it, and after every batch no client goroutine may be alive."),
+ "C13": ("climon", "exploration", "hostile-origin catalogue run in child processes (crash attribution by last logged case) + native go fuzzing of playlist bytes through a whole Client; termination, bounded-request and census oracles",
+   "Catalogue of structure-aware hostile inits / segments / parts / MPEG-TS / playlists (unsupported codecs, track-id permutations, empty and truncated boxes at every boundary, absurd numbers, mixed containers, traps at playlist level) plus seeded corruption, each run against the real Client in a child process; go test -fuzz feeds raw playlist bytes to a whole client. No crash, ends by itself or on Close, bounded requests unless matched by deliveries, no callback after the end, census empty."),
  "C14": ("plmon", "exploration", "runtime monitoring: generated playlist values pushed through the real Marshal/Unmarshal, compared field by field and against an independent second decoder",
    "Every subset of optional fields of every tag is enumerated, plus random legal values; each value is marshaled, unmarshaled, re-marshaled, decoded by the independent m3u8x reader and decoded again from four syntactic variants."),
  "C15": ("plmon", "exploration", "runtime monitoring: strict-grammar oracle over encoder output and served playlists, post-condition oracle over decoder results under seeded mutation and native go fuzzing",
@@ -62,6 +70,7 @@ m = {
    {"name": "plmon", "path": "/verif/cmd/vmon/playlist.go", "serves_properties": [k for k,v in CHECKS.items() if v[0]=="plmon"], "kind_free_text": "playlist codec monitor + native fuzz targets (internal/plx, internal/plfuzz, internal/m3u8x)"},
    {"name": "llmon", "path": "/verif/cmd/vmon/c06.go", "serves_properties": ["C06","C07","C08"], "kind_free_text": "concurrent muxer monitors (c06.go step-controlled, c07.go forced Close schedules, c08.go race-detector stress; internal/hx hook dispatcher, internal/racelog)"},
    {"name": "qmon", "path": "/verif/cmd/vmon/c20.go", "serves_properties": ["C20"], "kind_free_text": "segment queue schedule enumerator + porcupine + stress"},
+   {"name": "climon", "path": "/verif/cmd/vmon/c11.go", "serves_properties": ["C10","C11","C12","C13"], "kind_free_text": "client monitors (c10.go, c11.go, c12.go, c13.go; internal/origin in-process origin + synth, internal/clirun observer, internal/clifuzz fuzz target)"},
    {"name": "stomon", "path": "/verif/cmd/vmon/storage.go", "serves_properties": ["C17"], "kind_free_text": "storage lock-step model monitor"},
  ],
  "checks": checks,
